@@ -1,6 +1,7 @@
 import AdaptixModel.Protocol
 import AdaptixModel.Morph.Load
 import AdaptixModel.Morph.Dump
+import AdaptixModel.Morph.DumpView
 import AdaptixModel.Morph.Scalars
 
 namespace Adaptix.Ops.Morph
@@ -210,10 +211,10 @@ def handle : Protocol.Handler := fun j => do
     supers := fun x => match supers.find? (fun p => p.1 == clsOf x) with | some p => p.2 | none => [] }
   match op with
   | "load" => return encOutcome (load W cfg fuel ty (← decVal (← field j "datum")))
-  | "dump" => return encOutcome (dump W DW cfg fuel ty (← decVal (← field j "value")))
+  | "dump" => return encOutcome (dumpTop W DW cfg fuel ty (← decVal (← field j "value")))
   | "roundtrip" =>
     let x ← decVal (← field j "value")
-    match dump W DW cfg fuel ty x with
+    match dumpTop W DW cfg fuel ty x with
     | .ok d => return Json.mkObj [("dumped", encVal d), ("loaded", encOutcome (load W cfg fuel ty d))]
     | o => return Json.mkObj [("dump_failed", encOutcome o)]
   | _ => throw s!"unknown op {op}"
